@@ -33,6 +33,7 @@ from fractions import Fraction
 from .poly import Poly, Rat, _r
 from .pyfront import dotted, call_name, src, walk_no_nested
 from .pysym import PySym, Unsupported, PI
+from .ttext import TText
 
 
 def prod(xs):
@@ -176,8 +177,8 @@ class Ten:
 
 class FVal:
     """a value formatted into an f-string"""
-    def __init__(self, value, spec="", conv=-1):
-        self.value, self.spec, self.conv = value, spec, conv
+    def __init__(self, value, spec="", conv=-1, pct=False):
+        self.value, self.spec, self.conv, self.pct = value, spec, conv, pct     # pct: %-style (text right-aligned by default), else {}-style
 
     def __repr__(self):
         return "{%r:%s}" % (self.value, self.spec)
@@ -344,6 +345,12 @@ class TenSym(PySym):
             return r
         if isinstance(v, str):
             return Ten((), [Rat(Poly.var(repr(v)))])       # a string element: an atom named by its own text
+        if isinstance(v, TText):
+            # formatted text stored into a numeric array: numpy converts it with float()
+            try:
+                return Ten((), [self.lift(v.number("float"))])
+            except ValueError as e_:
+                raise Raised("the analysed path raises: ValueError (%s)" % e_, "ValueError('float')")
         v = self.lift(v)
         if isinstance(v, Ten):
             return v
@@ -576,7 +583,10 @@ class TenSym(PySym):
             return tuple(self.key(e) for e in n.elts)
         if isinstance(n, ast.Slice):
             def c(x):
-                return None if x is None else self.concrete(self.ex(x))
+                if x is None:
+                    return None
+                v_ = self.ex(x)
+                return None if v_ is None else self.concrete(v_)        # a[::stride] with stride None
             return slice(c(n.lower), c(n.upper), c(n.step))
         if isinstance(n, ast.Constant) and n.value is Ellipsis:
             return Ellipsis
@@ -701,6 +711,14 @@ class TenSym(PySym):
                 base = self.to_ten(base)
             if isinstance(base, str):
                 return base[self.key(n.slice)]
+            if isinstance(base, (TText, FStr)):
+                tt_ = base if isinstance(base, TText) else TText(base.parts)
+                k_ = self.key(n.slice)
+                if isinstance(k_, slice) and k_.step in (None, 1):
+                    return tt_.slice(k_.start, k_.stop)
+                if isinstance(k_, int):
+                    return tt_.slice(k_, k_ + 1 if k_ != -1 else None)
+                raise Unsupported("subscript %s of formatted text" % src(n.slice))
             if isinstance(base, Ten):
                 return self.getitem(base, self.key(n.slice))
             if isinstance(base, dict):
@@ -802,6 +820,26 @@ class TenSym(PySym):
             return r if isinstance(op, ast.Is) else not r
         if (isinstance(a, Obj) or isinstance(b, Obj)) and isinstance(op, (ast.Eq, ast.NotEq)):
             return (a is b) if isinstance(op, ast.Eq) else (a is not b)
+        if isinstance(a, FStr):
+            a = TText(a.parts)
+        if isinstance(b, FStr):
+            b = TText(b.parts)
+        if isinstance(a, TText) or isinstance(b, TText):
+            if isinstance(op, (ast.Eq, ast.NotEq)):
+                la = a if isinstance(a, str) else (a.literal() if isinstance(a, TText) else None)
+                lb = b if isinstance(b, str) else (b.literal() if isinstance(b, TText) else None)
+                if la is not None and lb is not None:
+                    r = la == lb
+                elif (la == "" and isinstance(b, TText) and not b.is_empty()) or (lb == "" and isinstance(a, TText) and not a.is_empty()):
+                    r = False
+                elif not isinstance(a, (str, TText)) or not isinstance(b, (str, TText)):
+                    r = False
+                else:
+                    raise Unsupported("comparison of formatted text: %s" % (src(n) if n is not None else "?"))
+                return r if isinstance(op, ast.Eq) else not r
+            if isinstance(op, (ast.In, ast.NotIn)) and isinstance(a, str) and isinstance(b, TText):
+                r = b.contains(a)
+                return r if isinstance(op, ast.In) else not r
         if (isinstance(a, Ten) and isinstance(b, str)) or (isinstance(a, str) and isinstance(b, Ten)):
             if isinstance(op, (ast.Eq, ast.NotEq)):
                 return isinstance(op, ast.NotEq)
@@ -870,6 +908,10 @@ class TenSym(PySym):
             return bool(v)
         if isinstance(v, Obj):
             return True
+        if isinstance(v, TText):
+            return not v.is_empty()
+        if isinstance(v, FStr):
+            return bool(v.parts)
         if isinstance(v, Rat) and v.const_value() is not None:
             return v.const_value() != 0
         raise Unsupported("truth value of a symbolic quantity")
@@ -894,11 +936,11 @@ class TenSym(PySym):
             if m_.group(1) is not None:
                 if not isinstance(b, dict) or m_.group(1) not in b:
                     raise Unsupported("%%(%s) format without a mapping" % m_.group(1))
-                parts.append(FVal(b[m_.group(1)], m_.group(2)))
+                parts.append(FVal(b[m_.group(1)], m_.group(2), pct=True))
                 continue
             if k >= len(vals):
                 raise Raised("the analysed path raises: TypeError (not enough arguments for format string)", "TypeError('format')")
-            parts.append(FVal(vals[k], m_.group(2)))
+            parts.append(FVal(vals[k], m_.group(2), pct=True))
             k += 1
         if pos < len(tmpl):
             parts.append(tmpl[pos:])
@@ -936,9 +978,11 @@ class TenSym(PySym):
             return self.dot(a, b)
         if isinstance(op, ast.Mod) and isinstance(a, str):
             return self.percent_format(a, b)
-        if isinstance(op, ast.Add) and isinstance(a, (str, FStr)) and isinstance(b, (str, FStr)):
+        if isinstance(op, ast.Add) and isinstance(a, (str, FStr, TText)) and isinstance(b, (str, FStr, TText)):
             if isinstance(a, str) and isinstance(b, str):
                 return a + b
+            if isinstance(a, TText) or isinstance(b, TText):
+                return TText((a.parts if not isinstance(a, str) else [a]) + (b.parts if not isinstance(b, str) else [b]))
             return FStr((a.parts if isinstance(a, FStr) else [a]) + (b.parts if isinstance(b, FStr) else [b]))
         a, b = self.lift(a), self.lift(b)
         if isinstance(a, (list, tuple)):
@@ -1087,6 +1131,15 @@ class TenSym(PySym):
                 else:
                     recv.extend(self.iterate(v))
                 return None
+            if isinstance(recv, (list, frozenset)) and m in ("issubset", "issuperset", "isdisjoint", "union", "intersection", "difference") and len(n.args) == 1:
+                a_ = [self.pyval(x_) for x_ in recv]
+                b_ = [self.pyval(x_) for x_ in self.iterate(self.ex(n.args[0]))]
+                if any(isinstance(x_, (Rat, Ten, Obj, TText)) for x_ in a_ + b_):
+                    raise Unsupported("set operation on symbolic values")
+                sa_, sb_ = set(a_), set(b_)
+                if m in ("issubset", "issuperset", "isdisjoint"):
+                    return getattr(sa_, m)(sb_)
+                return sorted(getattr(sa_, m)(sb_))
             if isinstance(recv, PSet) and m == "add":
                 recv.add(self.ex(n.args[0]))
                 return None
@@ -1123,8 +1176,26 @@ class TenSym(PySym):
                     return dict(recv)
                 args_ = [self.ex(a) for a in n.args]
                 return recv.get(self.pyval(args_[0]), args_[1] if len(args_) > 1 else None)
-            if isinstance(recv, (str, FStr)) and m in ("encode", "decode"):
+            if isinstance(recv, (str, FStr, TText)) and m in ("encode", "decode"):
                 return recv         # text and its encoded form are not told apart
+            if isinstance(recv, FStr) and m in ("split", "strip", "rstrip", "lstrip", "startswith", "index", "find"):
+                recv = TText(recv.parts)
+            if isinstance(recv, TText):
+                args_ = [self.pyval(self.ex(a)) for a in n.args]
+                if m == "split" and not args_:
+                    return recv.split()
+                if m in ("strip", "rstrip", "lstrip") and not args_:
+                    return recv.strip(left=m != "rstrip", right=m != "lstrip")
+                if m == "startswith" and len(args_) == 1 and isinstance(args_[0], str):
+                    return recv.startswith(args_[0])
+                if m in ("index", "find") and args_ and isinstance(args_[0], str):
+                    k_ = recv.index(args_[0], args_[1] if len(args_) > 1 else 0)
+                    if k_ is None:
+                        if m == "find":
+                            return -1
+                        raise Raised("the analysed path raises: ValueError (substring not found)", "ValueError('substring not found')")
+                    return k_
+                raise Unsupported("method %s of formatted text" % m)
             if isinstance(recv, str) and m == "join":
                 items_ = self.iterate(self.ex(n.args[0]))
                 if any(isinstance(x_, FStr) for x_ in items_) and all(isinstance(x_, (str, FStr)) for x_ in items_):
@@ -1220,6 +1291,8 @@ class TenSym(PySym):
             v = A(0)
             if isinstance(v, Ten) and cn == "np.array" and self.kw(n, "copy", None, True) is not False:
                 return Ten(v.shape, v.data)         # np.array copies unless told not to
+            if isinstance(v, (list, tuple)) and v and all(x_ is None for x_ in v):
+                return list(v)      # an object array of None: kept as the list it was made from
             res = self.to_ten(v) if isinstance(v, (list, tuple)) else v
             dt = n.args[1] if len(n.args) > 1 else next((k.value for k in n.keywords if k.arg == "dtype"), None)
             if isinstance(res, Ten) and res.isbool and dt is not None and "bool" not in src(dt):
@@ -1283,6 +1356,11 @@ class TenSym(PySym):
             return Ten.full(shp, self.lift(self.kw(n, "fill_value", 1)))
         if cn in ("np.int64", "np.int32", "np.float32", "np.float64", "float", "bool") and len(n.args) == 1:
             v_ = A(0)
+            if cn != "bool" and isinstance(v_, (str, TText)):
+                try:
+                    return (TText([v_]) if isinstance(v_, str) else v_).number("float" if "float" in cn else "int")
+                except ValueError as e_:
+                    raise Raised("the analysed path raises: ValueError (%s)" % e_, "ValueError('float')")
             if cn == "bool":
                 if isinstance(v_, (dict, list, tuple, str, frozenset)):
                     return bool(v_)
@@ -1476,6 +1554,8 @@ class TenSym(PySym):
                 return len(v)
             if isinstance(v, Obj) and hasattr(v, "n_frames"):
                 return v.n_frames
+            if isinstance(v, TText):
+                return v.total_width()
             if isinstance(v, FStr):
                 # the length of formatted text: known only when every value is itself text; else a symbol (a test on it is put to the rule's `assume`)
                 if all(isinstance(p_, str) or (isinstance(p_.value, str) and not p_.spec) for p_ in v.parts):
@@ -1485,14 +1565,64 @@ class TenSym(PySym):
             raise Unsupported("len of %s" % type(v).__name__)
         if cn in ("range",):
             return list(range(*[self.concrete(self.ex(a)) for a in n.args]))
+        if cn in ("match", "re.match", "re.search", "search", "re.fullmatch", "fullmatch") and len(n.args) == 2 and cn not in self.funcs:
+            pat_, txt_ = A(0), A(1)
+            if isinstance(txt_, FStr):
+                txt_ = TText(txt_.parts)
+            if isinstance(pat_, str) and isinstance(txt_, (str, TText)):
+                from .ttext import samples as _samples
+                ss_ = _samples(txt_)
+                if ss_ is None:
+                    raise Unsupported("regular expression on a cut field")
+                f_ = getattr(re, cn.split(".")[-1])
+                rs_ = [f_(pat_, x_) is not None for x_ in ss_]
+                if all(rs_) or not any(rs_):
+                    return rs_[0]       # decided on representative renderings of the formatted values (positive / negative / zero-or-small)
+                raise Unsupported("%s(%r, ..) depends on the value formatted: %r" % (cn, pat_, txt_))
+        if cn in ("findall", "re.findall") and len(n.args) == 2 and cn not in self.funcs:
+            pat_, txt_ = A(0), A(1)
+            if isinstance(txt_, FStr):
+                txt_ = TText(txt_.parts)
+            if isinstance(pat_, str) and isinstance(txt_, (str, TText)):
+                from .ttext import findall as _findall
+                return _findall(pat_, txt_)
+        if cn == "map" and len(n.args) == 2 and isinstance(n.args[0], (ast.Name, ast.Attribute)):
+            out_ = []
+            for it_ in self.iterate(A(1)):
+                self.env["__map_item"] = it_
+                out_.append(self.ex(ast.copy_location(ast.Call(func=n.args[0], args=[ast.Name(id="__map_item", ctx=ast.Load())], keywords=[]), n)))
+            self.env.pop("__map_item", None)
+            return out_
+        if cn in ("itertools.count", "count") and len(n.args) <= 2 and cn not in self.env:
+            return itertools.count(*[self.concrete(self.ex(a_)) for a_ in n.args])
+        if cn == "next" and n.args:
+            it_ = A(0)
+            if hasattr(it_, "__next__"):
+                try:
+                    return next(it_)
+                except StopIteration:
+                    if len(n.args) > 1:
+                        return A(1)
+                    raise Raised("the analysed path raises: StopIteration", "StopIteration")
+            raise Unsupported("next() of %s" % type(it_).__name__)
         if cn in ("enumerate",):
-            return [(i, x) for i, x in enumerate(self.iterate(A(0)))]
+            it_ = self.iterate(A(0))
+            start_ = self.concrete(self.kw(n, "start", 1, 0))
+            if not isinstance(it_, list):
+                return ((i, x) for i, x in enumerate(it_, start_))      # a file-like model that is consumed as it is read
+            return [(i, x) for i, x in enumerate(it_, start_)]
         if cn in ("zip",):
             return list(zip(*[self.iterate(self.ex(a)) for a in n.args]))
         if cn in ("list", "tuple"):
             return (list if cn == "list" else tuple)(self.iterate(A(0)))
         if cn in ("float", "np.float64", "np.float32", "np.double"):
-            return A(0)
+            v_ = A(0)
+            if isinstance(v_, (str, TText)):
+                try:
+                    return (TText([v_]) if isinstance(v_, str) else v_).number("float")
+                except ValueError as e_:
+                    raise Raised("the analysed path raises: ValueError (%s)" % e_, "ValueError('float')")
+            return v_
         if cn == "bool":
             return self.truth(A(0))
         if cn == "slice":
@@ -1511,7 +1641,14 @@ class TenSym(PySym):
             items_ = self.iterate(A(0))
             return list(items_) if cn == "list" else tuple(items_)
         if cn in ("int", "np.ceil", "np.floor", "math.ceil", "math.floor"):
-            v = self.lift(A(0))
+            v = A(0)
+            if cn == "int" and isinstance(v, (str, TText)):
+                try:
+                    r_ = (TText([v]) if isinstance(v, str) else v).number("int")
+                except ValueError as e_:
+                    raise Raised("the analysed path raises: ValueError (%s)" % e_, "ValueError('int')")
+                return self.pyval(r_)
+            v = self.lift(v)
             if isinstance(v, int):
                 return v
             c = v.const_value() if isinstance(v, Rat) else None
@@ -1701,6 +1838,9 @@ class TenSym(PySym):
         return sub.returned
 
     def iterate(self, v):
+        import types as _types
+        if isinstance(v, (_types.GeneratorType, itertools.count)):
+            return v
         if isinstance(v, Ten):
             if v.ndim == 0:
                 raise Unsupported("iteration over a 0-d array")
@@ -1714,7 +1854,8 @@ class TenSym(PySym):
         if isinstance(v, Obj):
             it_ = v.__dict__.get("_iter")
             if callable(it_):
-                return list(it_())
+                r_ = it_()
+                return r_ if isinstance(r_, _types.GeneratorType) else list(r_)
             cm = v.__dict__.get("_methods") or {}
             if "__iter__" in cm:
                 sub = TenSym(self.globals_env(), self.positive, self.funcs, parent=self)
@@ -1992,6 +2133,11 @@ class TenSym(PySym):
                     recv_ = None
                 if isinstance(recv_, Obj) and (s.value.func.attr in (recv_.__dict__.get("_methods") or {}) or callable(getattr(recv_, s.value.func.attr, None))):
                     self.ex(s.value)
+                    return
+                if isinstance(recv_, Ten) and s.value.func.attr == "fill" and len(s.value.args) == 1:
+                    v_ = self.lift(self.ex(s.value.args[0]))
+                    for i_ in range(len(recv_.data)):
+                        recv_.data[i_] = v_
                     return
             if isinstance(s.value, (ast.Compare, ast.Name, ast.Attribute, ast.Subscript, ast.BinOp, ast.BoolOp)):
                 self.ex(s.value)        # an expression evaluated for nothing (e.g. a comparison left where an assert was meant): no effect
